@@ -104,6 +104,12 @@ def polarity(facts, cdef, callee_pred):
 
 def check(ctx):
     facts = ctx.facts('prod')
+    # SEM: the five handlers of the keyspace actor, interpreted on abstract messages against every answer storage can give
+    # (handlers_abs).  Subsumes the structural clauses O1-O5, which are evaluated only when a construct is not modelled.
+    import handlers_abs
+    if handlers_abs.check_handlers(ctx, facts, 'C02.SEM'):
+        gate.check_gate(ctx, facts, 'C02.G')
+        return
     A = anchors(facts)
     ctx.floor('C02.ANCHORS', 'handlers that write storage and fold the set', len(A), 5)
     n_single = n_bulk = n_purge = 0
